@@ -20,7 +20,7 @@ RULE = ('the real ActiveFabric driven by seeded histories over {start, start aga
 ASSUMPTIONS = ['stop histories are sequential (one client): with a concurrent start() the state after stop() is not determined by the statement']
 PROBES = ['start_while_alive', 'restart_after_stop', 'overlapping_starts']
 PLAN = {
-  'quick': {'strata': {'sequential': 2500, 'concurrent-start': 2500}, 'wall_s': 150, 'chunk': 50, 'min_conclusive': 1000},
+  'quick': {'strata': {'sequential': 2500, 'concurrent-start': 2500}, 'wall_s': 300, 'chunk': 50, 'min_conclusive': 1000},
   'thorough': {'strata': {'sequential': 60000, 'concurrent-start': 60000}, 'wall_s': 900, 'chunk': 100, 'min_conclusive': 10000},
 }
 
